@@ -17,6 +17,8 @@ def tokens():
 
     toks = []
     for key in RpcError.__handlers__:
+        if not isinstance(key, str):
+            continue        # a malformed registration: reported by the `declared-ids-are-registered` obligation
         for t in key.split('.'):
             if t not in toks:
                 toks.append(t)
@@ -202,6 +204,105 @@ def _run_response(ids):
     return ok, [x['id'] for x in errors], type(e).__name__, exp.__name__
 
 
+STATUSES = [400, 403, 409, 410, 422, 500, 502, 503]
+
+
+def _run_request(status_i, ids):
+    """The whole path: RpcNode.request on an HTTP error status with a JSON error body."""
+    from pytezos.rpc import node as N
+    import pytezos.rpc.errors  # noqa
+    from vf.stubs import const_stub, json_log_stub, patched
+
+    errors = [{'id': R_IDS[i], 'kind': 'permanent', 'pos': k} for k, i in enumerate(ids)]
+    status = STATUSES[status_i]
+
+    class Resp:
+        status_code = status
+        headers = {'content-type': 'application/json'}
+        text = '<body>'
+
+        def json(self):
+            return [dict(e) for e in errors]
+
+    with patched((N.requests, 'request', lambda method, url, **kw: Resp()), (N, 'sleep', lambda d: None),
+                 (N, 'json', json_log_stub(N.json)), (N, 'pformat', const_stub('<pformat>'))):
+        try:
+            N.RpcNode('http://n').request('GET', 'x')
+            return False, status, [x['id'] for x in errors], 'no exception', '-'
+        except N.RpcError as e:
+            exp = reference(errors[-1]['id'])
+            carried = e.args[0] if e.args else None
+            ok = type(e) is exp and isinstance(carried, dict) and carried.get('pos') == len(errors) - 1
+            return ok, status, [x['id'] for x in errors], type(e).__name__, exp.__name__
+
+
+def sym_request(P, ex):
+    from harness import mbv
+
+    st = mbv._choose(ex, 'status', 0, len(STATUSES) - 1)
+    n = mbv._choose(ex, 'n', 1, 2)
+    ids = [mbv._choose(ex, f'e{i}', 0, len(R_IDS) - 1) for i in range(n)]
+    ok, status, lst, got, exp = _run_request(st, ids)
+    if not ok:
+        ex.fail_here(f'HTTP {status} with errors {lst} raised {got}, expected {exp} carrying the last error')
+    ex.check(True)
+
+
+def conc_request(P, w):
+    n = int(w.get('n', 1))
+    ok, status, lst, got, exp = _run_request(int(w.get('status', 0)), [int(w.get(f'e{i}', 0)) for i in range(n)])
+    return {'ok': ok, 'status': status, 'errors': lst, 'observed': got, 'expected': exp}
+
+
+def declared_ids():
+    """(identifier, class name) pairs declared in rpc/errors.py: `class X(RpcError, error_id=...)` read from the source."""
+    import ast
+
+    import pytezos.rpc.errors as E
+
+    out = []
+    for node in ast.parse(open(E.__file__).read()).body:
+        if isinstance(node, ast.ClassDef):
+            for kw in node.keywords:
+                if kw.arg == 'error_id':
+                    vals = kw.value.elts if isinstance(kw.value, (ast.List, ast.Tuple, ast.Set)) else [kw.value]
+                    for v in vals:
+                        if isinstance(v, ast.Constant) and isinstance(v.value, str):
+                            out.append((v.value, node.name))
+    return out
+
+
+def _run_declared(i):
+    from pytezos.rpc.node import RpcError
+    import pytezos.rpc.errors  # noqa
+
+    decl = declared_ids()
+    eid, cname = decl[i % len(decl)]
+    last = {}
+    for k, c in decl:
+        last[k] = c          # a later declaration of the same identifier wins
+    e = RpcError.from_errors([{'id': 'proto.alpha.' + eid, 'kind': 'permanent'}])
+    h = RpcError.__handlers__.get(eid)
+    ok = h is not None and h.__name__ == last[eid] and type(e).__name__ == last[eid]
+    return ok, eid, type(e).__name__, last[eid]
+
+
+def sym_declared(P, ex):
+    from harness import mbv
+
+    n = len(declared_ids())
+    i = mbv._choose(ex, 'i', 0, n - 1)
+    ok, eid, got, exp = _run_declared(i)
+    if not ok:
+        ex.fail_here(f'identifier {eid} declared for {exp} maps to {got}')
+    ex.check(True)
+
+
+def conc_declared(P, w):
+    ok, eid, got, exp = _run_declared(int(w.get('i', 0)))
+    return {'ok': ok, 'error_id': eid, 'observed': got, 'expected': exp}
+
+
 def sym_response(P, ex):
     from harness import mbv
 
@@ -227,6 +328,12 @@ def obligations(tier):
     obs.append(Ob(name='from_response/error-lists', engine='bvx', sym=sym_response, concrete=conc_response, P={'max': 3 if tier == 'quick' else 4}, timeout=300,
                   bounds=f'JSON error bodies of 1..{3 if tier == "quick" else 4} errors, each identifier chosen by the solver among {len(R_IDS)} (repetitions included)',
                   targets=TARGETS + ['pytezos.rpc.node.RpcError.from_response'], opts={'W': 16}))
+    obs.append(Ob(name='declared-ids-are-registered', engine='bvx', sym=sym_declared, concrete=conc_declared, P={}, timeout=120,
+                  bounds='every identifier declared with error_id= in rpc/errors.py (read from the source), looked up with a proto.<protocol>. prefix',
+                  targets=TARGETS + ['pytezos.rpc.node.RpcError.__init_subclass__', 'pytezos.rpc.errors (declarations)'], opts={'W': 16}))
+    obs.append(Ob(name='through-RpcNode.request/error-statuses', engine='bvx', sym=sym_request, concrete=conc_request, P={}, timeout=300,
+                  bounds=f'HTTP status chosen by the solver among {STATUSES} (401/404 are generic by design), JSON bodies of 1..2 errors over {len(R_IDS)} identifiers',
+                  targets=TARGETS + ['pytezos.rpc.node.RpcNode.request', 'pytezos.rpc.node.RpcError.from_response'], opts={'W': 16}))
     for form in FORMS:
         if form == 'P.C.N' and tier == 'quick':
             continue
